@@ -414,3 +414,276 @@ Proof.
     destruct sig; try (apply post_ret; exact E).
     eapply post_weaken; [apply Hf|]. intros rr Ha; simpl in *. eapply ext_trans; eassumption.
 Qed.
+
+(* the statement of item 1 in direct form *)
+Theorem block_restores_scope n P e s st sig e' st' :
+  exec_stmt n P e s st = (Ok (sig, e'), st') ->
+  List.length e' = List.length e /\
+  shape (tl e') = shape (tl e) /\
+  (exists added, names (hd [] e') = added ++ names (hd [] e)) /\
+  (is_decl s = false -> shape e' = shape e) /\
+  (is_decl s = true -> tl e' = tl e).
+Proof.
+  intro H. destruct (scope_inv_all n) as (Hs & _). apply Hs in H. simpl in H.
+  destruct H as (X & Y & Z). repeat split; try assumption.
+  - apply ext_length; exact X.
+  - apply ext_tl_shape; exact X.
+  - destruct e, e'; simpl in *; try tauto. exists []; reflexivity.
+Qed.
+
+Theorem stmts_extend_scope n P e l st sig e' st' :
+  exec_stmts n P e l st = (Ok (sig, e'), st') -> ext e e'.
+Proof. intro H. destruct (scope_inv_all n) as (_ & Hss & _). apply Hss in H. exact H. Qed.
+
+(* a block body run in a fresh frame over e: after popping, e has its shape back *)
+Theorem block_pop_restores n P e body st sig e2 st' :
+  exec_block n P ([] :: e) body st = (Ok (sig, e2), st') ->
+  shape (tl e2) = shape e /\ List.length e2 = S (List.length e).
+Proof.
+  intro H. destruct (scope_inv_all n) as (_ & _ & Hb & _). apply Hb in H. cbn [snd] in H.
+  split; [apply ext_push_pop; exact H | apply ext_length in H; exact H].
+Qed.
+
+Theorem cond_restores_scope n P e c body st r e' st' :
+  exec_cond n P e c body st = (Ok (r, e'), st') -> shape e' = shape e.
+Proof. intro H. destruct (scope_inv_all n) as (_ & _ & _ & Hc & _). apply Hc in H. exact H. Qed.
+
+Theorem while_restores_scope n P e c body st sig e' st' :
+  exec_while n P e c body st = (Ok (sig, e'), st') -> shape e' = shape e.
+Proof. intro H. destruct (scope_inv_all n) as (_ & _ & _ & _ & Hw & _). apply Hw in H. exact H. Qed.
+
+Theorem for_extends_scope n P e var rg body st sig e' st' :
+  exec_for n P e var rg body st = (Ok (sig, e'), st') -> ext e e'.
+Proof. intro H. destruct (scope_inv_all n) as (_ & _ & _ & _ & _ & Hf). apply Hf in H. exact H. Qed.
+
+(* top level: no local frame; declarations go to the globals *)
+Theorem toplevel_env_stays_empty n P l st sig e' st' :
+  exec_stmts n P [] l st = (Ok (sig, e'), st') -> e' = [].
+Proof. intro H. apply stmts_extend_scope in H. destruct e'; simpl in H; [reflexivity | contradiction]. Qed.
+
+(* ====================================================================== *)
+(* 4. C10 item 3: break / return signalling                                *)
+(* ====================================================================== *)
+
+Lemma bindM_ok {A B} (m : M A) (f : A -> M B) s a s1 : m s = (Ok a, s1) -> bindM m f s = f a s1.
+Proof. intro H. unfold bindM. rewrite H. reflexivity. Qed.
+
+Lemma bindM_er {A B} (m : M A) (f : A -> M B) s x s1 : m s = (Er x, s1) -> bindM m f s = (Er x, s1).
+Proof. intro H. unfold bindM. rewrite H. reflexivity. Qed.
+
+Lemma bindM_inv {A B} (m : M A) (f : A -> M B) s b s' :
+  bindM m f s = (Ok b, s') -> exists a s1, m s = (Ok a, s1) /\ f a s1 = (Ok b, s').
+Proof.
+  unfold bindM. destruct (m s) as [[a|x] s1]; [|discriminate]. intro H. exists a, s1. split; [reflexivity | exact H].
+Qed.
+
+(* --- evalStatments stops at the first statement that signals --- *)
+Lemma stmts_signal_stops f P e s t st sig e1 st1 :
+  exec_stmt f P e s st = (Ok (sig, e1), st1) -> is_ctl sig = true ->
+  exec_stmts (S f) P e (s :: t) st = (Ok (sig, e1), st1).
+Proof. intros H C. rewrite exec_stmts_cons. rewrite (bindM_ok _ _ _ _ _ H). rewrite C. reflexivity. Qed.
+
+Lemma stmts_no_signal_continues f P e s t st e1 st1 :
+  exec_stmt f P e s st = (Ok (SigNone, e1), st1) ->
+  exec_stmts (S f) P e (s :: t) st = exec_stmts f P e1 t st1.
+Proof. intros H. rewrite exec_stmts_cons. rewrite (bindM_ok _ _ _ _ _ H). reflexivity. Qed.
+
+Inductive stmts_run (P : program) : env -> state -> list stmt -> signal -> env -> state -> Prop :=
+| sr_nil e st : stmts_run P e st [] SigNone e st
+| sr_ctl k e st s t sig e1 st1 :
+    exec_stmt k P e s st = (Ok (sig, e1), st1) -> is_ctl sig = true ->
+    stmts_run P e st (s :: t) sig e1 st1           (* [t] is not executed *)
+| sr_next k e st s t e1 st1 sig e' st' :
+    exec_stmt k P e s st = (Ok (SigNone, e1), st1) ->
+    stmts_run P e1 st1 t sig e' st' ->
+    stmts_run P e st (s :: t) sig e' st'.
+
+Theorem stmts_stop_at_first_signal n P e l st sig e' st' :
+  exec_stmts n P e l st = (Ok (sig, e'), st') -> stmts_run P e st l sig e' st'.
+Proof.
+  revert e l st. induction n as [|f IH]; intros e l st H; [discriminate|].
+  destruct l as [|s t].
+  - rewrite exec_stmts_nil in H. inversion H; subst. constructor.
+  - rewrite exec_stmts_cons in H. apply bindM_inv in H as ([sg e1] & st1 & H1 & H2).
+    destruct sg; simpl in H2.
+    + eapply sr_next; [exact H1 | apply IH; exact H2].
+    + inversion H2; subst. eapply sr_ctl; [exact H1 | reflexivity].
+    + inversion H2; subst. eapply sr_ctl; [exact H1 | reflexivity].
+Qed.
+
+(* the statements after the signalling one are irrelevant *)
+Corollary stmts_after_signal_irrelevant f P e s t t' st sig e1 st1 :
+  exec_stmt f P e s st = (Ok (sig, e1), st1) -> is_ctl sig = true ->
+  exec_stmts (S f) P e (s :: t) st = exec_stmts (S f) P e (s :: t') st.
+Proof. intros H C. rewrite !(stmts_signal_stops _ _ _ _ _ _ _ _ _ H C). reflexivity. Qed.
+
+(* --- blocks and if pass every signal through unchanged --- *)
+Lemma block_passes_signal f P e l st st0 sig e' st' :
+  tick st = (Ok tt, st0) -> exec_stmts f P e l st0 = (Ok (sig, e'), st') ->
+  exec_block (S f) P e l st = (Ok (sig, e'), st').
+Proof. intros T H. rewrite exec_block_unfold, (bindM_ok _ _ _ _ _ T). exact H. Qed.
+
+Lemma block_signal_inv n P e l st sig e' st' :
+  exec_block n P e l st = (Ok (sig, e'), st') ->
+  exists st0, stmts_run P e st0 l sig e' st'.
+Proof.
+  destruct n as [|f]; [discriminate|]. rewrite exec_block_unfold. intro H.
+  apply bindM_inv in H as (u & st0 & _ & H). exists st0. eapply stmts_stop_at_first_signal; exact H.
+Qed.
+
+Lemma cond_passes_signal f P e c body st l st1 st2 sig e2 st' :
+  eval_expr f P ([] :: e) c st = (Ok l, st1) -> load l st1 = (Ok (HBool true), st2) ->
+  exec_block f P ([] :: e) body st2 = (Ok (sig, e2), st') ->
+  exec_cond (S f) P e c body st = (Ok (Some sig, tl e2), st').
+Proof.
+  intros H1 H2 H3. rewrite exec_cond_unfold, (bindM_ok _ _ _ _ _ H1), (bindM_ok _ _ _ _ _ H2), (bindM_ok _ _ _ _ _ H3).
+  reflexivity.
+Qed.
+
+Lemma cond_false_skips f P e c body st l st1 st2 :
+  eval_expr f P ([] :: e) c st = (Ok l, st1) -> load l st1 = (Ok (HBool false), st2) ->
+  exec_cond (S f) P e c body st = (Ok (None, e), st2).
+Proof. intros H1 H2. rewrite exec_cond_unfold, (bindM_ok _ _ _ _ _ H1), (bindM_ok _ _ _ _ _ H2). reflexivity. Qed.
+
+Lemma cond_signal_inv n P e c body st sig e' st' :
+  exec_cond n P e c body st = (Ok (Some sig, e'), st') ->
+  exists k st0 e2, exec_block k P ([] :: e) body st0 = (Ok (sig, e2), st') /\ e' = tl e2.
+Proof.
+  destruct n as [|f]; [discriminate|]. rewrite exec_cond_unfold. intro H.
+  apply bindM_inv in H as (l & st1 & _ & H). apply bindM_inv in H as (v & st2 & _ & H).
+  destruct v; try discriminate. destruct b; [|discriminate].
+  apply bindM_inv in H as ([sg e2] & st3 & H3 & H). inversion H; subst.
+  exists f, st2, e2. split; [exact H3 | reflexivity].
+Qed.
+
+Lemma cond_none_inv n P e c body st e' st' :
+  exec_cond n P e c body st = (Ok (None, e'), st') -> e' = e.
+Proof.
+  destruct n as [|f]; [discriminate|]. rewrite exec_cond_unfold. intro H.
+  apply bindM_inv in H as (l & st1 & _ & H). apply bindM_inv in H as (v & st2 & _ & H).
+  destruct v; try discriminate. destruct b.
+  - apply bindM_inv in H as ([sg e2] & st3 & H3 & H). discriminate.
+  - inversion H; reflexivity.
+Qed.
+
+Lemma if_go_taken f P els c body t e st sig e1 st1 :
+  exec_cond f P e c body st = (Ok (Some sig, e1), st1) ->
+  if_go f P els ((c, body) :: t) e st = (Ok (sig, e1), st1).
+Proof. intro H. simpl. rewrite (bindM_ok _ _ _ _ _ H). reflexivity. Qed.
+
+Lemma if_go_not_taken f P els c body t e st e1 st1 :
+  exec_cond f P e c body st = (Ok (None, e1), st1) ->
+  if_go f P els ((c, body) :: t) e st = if_go f P els t e1 st1.
+Proof. intro H. simpl. rewrite (bindM_ok _ _ _ _ _ H). reflexivity. Qed.
+
+Lemma if_go_else f P body e st sig e1 st1 :
+  exec_block f P ([] :: e) body st = (Ok (sig, e1), st1) ->
+  if_go f P (Some body) [] e st = (Ok (sig, tl e1), st1).
+Proof. intro H. simpl. rewrite (bindM_ok _ _ _ _ _ H). reflexivity. Qed.
+
+Lemma if_go_no_else f P e st : if_go f P None [] e st = (Ok (SigNone, e), st).
+Proof. reflexivity. Qed.
+
+Definition if_bodies (conds : list (expr * list stmt)) (els : option (list stmt)) : list (list stmt) :=
+  map snd conds ++ match els with Some b => [b] | None => [] end.
+
+(* the signal of an if statement is exactly the signal of the one block it ran
+   (or SigNone when it ran none) *)
+Lemma if_go_signal_inv f P els cs e st sig e' st' :
+  if_go f P els cs e st = (Ok (sig, e'), st') ->
+  (sig = SigNone /\ e' = e) \/
+  exists body k st0 e2, In body (if_bodies cs els) /\
+     exec_block k P ([] :: e) body st0 = (Ok (sig, e2), st') /\ e' = tl e2.
+Proof.
+  revert e st. induction cs as [|[c body] t IH]; intros e st H.
+  - simpl in H. destruct els as [body|].
+    + apply bindM_inv in H as ([sg e1] & st1 & H1 & H). inversion H; subst.
+      right. exists body, f, st, e1. repeat split; [left; reflexivity | exact H1].
+    + inversion H; subst. left; split; reflexivity.
+  - simpl in H. apply bindM_inv in H as ([r e1] & st1 & H1 & H). destruct r as [sg|].
+    + inversion H; subst. apply cond_signal_inv in H1 as (k & st0 & e2 & H1 & ->).
+      right. exists body, k, st0, e2. repeat split; [left; reflexivity | exact H1].
+    + apply cond_none_inv in H1 as ->. apply IH in H as [H | (b & k & st0 & e2 & I & H & E)]; [left; exact H|].
+      right. exists b, k, st0, e2. repeat split; [right; exact I | exact H | exact E].
+Qed.
+
+Theorem if_signal_is_block_signal n P e conds els st sig e' st' :
+  exec_stmt n P e (SIf conds els) st = (Ok (sig, e'), st') ->
+  (sig = SigNone /\ e' = e) \/
+  exists body k st0 e2, In body (if_bodies conds els) /\
+     exec_block k P ([] :: e) body st0 = (Ok (sig, e2), st') /\ e' = tl e2.
+Proof.
+  destruct n as [|f]; [discriminate|]. rewrite exec_stmt_if. intro H.
+  apply bindM_inv in H as (u & st0 & _ & H). eapply if_go_signal_inv; exact H.
+Qed.
+
+(* --- loops: break ends the loop and is consumed; return passes through --- *)
+Lemma while_break_ends_loop f P e c body st e1 st1 :
+  exec_cond f P e c body st = (Ok (Some SigBreak, e1), st1) ->
+  exec_while (S f) P e c body st = (Ok (SigNone, e1), st1).
+Proof. intro H. rewrite while_unfold, (bindM_ok _ _ _ _ _ H). reflexivity. Qed.
+
+Lemma while_return_passes f P e c body st v e1 st1 :
+  exec_cond f P e c body st = (Ok (Some (SigReturn v), e1), st1) ->
+  exec_while (S f) P e c body st = (Ok (SigReturn v, e1), st1).
+Proof. intro H. rewrite while_unfold, (bindM_ok _ _ _ _ _ H). reflexivity. Qed.
+
+Lemma while_iterates f P e c body st e1 st1 :
+  exec_cond f P e c body st = (Ok (Some SigNone, e1), st1) ->
+  exec_while (S f) P e c body st = exec_while f P e1 c body st1.
+Proof. intro H. rewrite while_unfold, (bindM_ok _ _ _ _ _ H). reflexivity. Qed.
+
+Lemma while_false_ends f P e c body st e1 st1 :
+  exec_cond f P e c body st = (Ok (None, e1), st1) ->
+  exec_while (S f) P e c body st = (Ok (SigNone, e1), st1).
+Proof. intro H. rewrite while_unfold, (bindM_ok _ _ _ _ _ H). reflexivity. Qed.
+
+(* while tests its condition before every iteration: the first thing an
+   iteration does is evaluate the condition (in a fresh frame); the body is not
+   run when it is false *)
+Lemma while_tests_first f P e c body st x st1 :
+  eval_expr f P ([] :: e) c st = (Er x, st1) ->
+  exec_while (S (S f)) P e c body st = (Er x, st1).
+Proof.
+  intro H. rewrite while_unfold. apply bindM_er. rewrite exec_cond_unfold. apply bindM_er. exact H.
+Qed.
+
+Lemma while_false_no_body f P e c body body' st l st1 st2 :
+  eval_expr f P ([] :: e) c st = (Ok l, st1) -> load l st1 = (Ok (HBool false), st2) ->
+  exec_while (S (S f)) P e c body st = (Ok (SigNone, e), st2) /\
+  exec_while (S (S f)) P e c body' st = (Ok (SigNone, e), st2).
+Proof.
+  intros H1 H2. split; (apply while_false_ends; eapply cond_false_skips; eassumption).
+Qed.
+
+Lemma for_break_ends_loop f P e var rg body st l rg' st1 e1 st2 e2 st3 :
+  for_next rg st = (Ok (Some (l, rg')), st1) -> update_var var l e st1 = (Ok e1, st2) ->
+  exec_block f P e1 body st2 = (Ok (SigBreak, e2), st3) ->
+  exec_for (S f) P e var rg body st = (Ok (SigNone, e2), st3).
+Proof.
+  intros H1 H2 H3. rewrite exec_for_unfold, (bindM_ok _ _ _ _ _ H1). simpl.
+  rewrite (bindM_ok _ _ _ _ _ H2), (bindM_ok _ _ _ _ _ H3). reflexivity.
+Qed.
+
+Lemma for_return_passes f P e var rg body st l rg' st1 e1 st2 v e2 st3 :
+  for_next rg st = (Ok (Some (l, rg')), st1) -> update_var var l e st1 = (Ok e1, st2) ->
+  exec_block f P e1 body st2 = (Ok (SigReturn v, e2), st3) ->
+  exec_for (S f) P e var rg body st = (Ok (SigReturn v, e2), st3).
+Proof.
+  intros H1 H2 H3. rewrite exec_for_unfold, (bindM_ok _ _ _ _ _ H1). simpl.
+  rewrite (bindM_ok _ _ _ _ _ H2), (bindM_ok _ _ _ _ _ H3). reflexivity.
+Qed.
+
+Lemma for_iterates f P e var rg body st l rg' st1 e1 st2 e2 st3 :
+  for_next rg st = (Ok (Some (l, rg')), st1) -> update_var var l e st1 = (Ok e1, st2) ->
+  exec_block f P e1 body st2 = (Ok (SigNone, e2), st3) ->
+  exec_for (S f) P e var rg body st = exec_for f P e2 var rg' body st3.
+Proof.
+  intros H1 H2 H3. rewrite exec_for_unfold, (bindM_ok _ _ _ _ _ H1). simpl.
+  rewrite (bindM_ok _ _ _ _ _ H2), (bindM_ok _ _ _ _ _ H3). reflexivity.
+Qed.
+
+Lemma for_exhausted_ends f P e var rg body st st1 :
+  for_next rg st = (Ok None, st1) ->
+  exec_for (S f) P e var rg body st = (Ok (SigNone, e), st1).
+Proof. intros H1. rewrite exec_for_unfold, (bindM_ok _ _ _ _ _ H1). reflexivity. Qed.
